@@ -1,13 +1,13 @@
 #!/bin/bash
 # import_round2.sh <PID>: move a round-2 sub-agent's deliverables (/tmp/mut2_<PID>/_out) into seeded_incoming/<PID>/ as seeds r, s, t
 set -e
-P=$1; O=/tmp/mut2_$P/_out; D=/verif/seeded_incoming/$P; mkdir -p $D
+P=$1; O=/tmp/mut${R:-2}_$P/_out; D=/verif/seeded_incoming/$P; mkdir -p $D
 i=0; for x in a b c; do
-  L=$(echo r s t | cut -d' ' -f$((i+1))); i=$((i+1))
+  L=$(echo ${LETTERS:-r s t} | cut -d' ' -f$((i+1))); i=$((i+1))
   [ -f $O/$x.patch ] || continue
   cp $O/$x.patch $D/$L.patch
   for e in rs sh; do [ -f $O/demo_$x.$e ] && cp $O/demo_$x.$e $D/demo_$L.$e; done
 done
-cp $O/notes.md $D/notes_r2.md 2>/dev/null || true
-git -C /repo worktree remove --force /tmp/mut2_$P; rm -rf /tmp/mut2_${P}_tmp
+cp $O/notes.md $D/notes_r${R:-2}.md 2>/dev/null || true
+git -C /repo worktree remove --force /tmp/mut${R:-2}_$P; rm -rf /tmp/mut${R:-2}_${P}_tmp
 ls $D
